@@ -47,11 +47,13 @@ package ro
 
 //@ operator SkipWhileIWithContext
 //@   props C04 C09 C08
+//@   note skipping starts (ghost passed == false) and ends for good at the first value the predicate rejects
 //@   ghost n int = 0
-//@   inv i == n
-//@   on next(ctx, value) when !skipping : emits Next(ctx, value) ; n' = n + 1
-//@   on next(ctx, value) when skipping && predicate_1(ctx, value, n) : emits ; n' = n + 1
-//@   on next(ctx, value) when skipping && !predicate_1(ctx, value, n) : emits Next(predicate_0(ctx, value, n), value) ; n' = n + 1
+//@   ghost passed bool = false
+//@   inv i == n && skipping == !passed
+//@   on next(ctx, value) when passed : emits Next(ctx, value) ; n' = n + 1
+//@   on next(ctx, value) when !passed && predicate_1(ctx, value, n) : emits ; n' = n + 1
+//@   on next(ctx, value) when !passed && !predicate_1(ctx, value, n) : emits Next(predicate_0(ctx, value, n), value) ; n' = n + 1 ; passed' = true
 
 //@ operator TakeWhileIWithContext
 //@   props C04 C09 C14 C08
@@ -200,8 +202,8 @@ package ro
 //@   props C04 C07 C08
 //@   requires size >= 1
 //@   inv len(buffer) < size
-//@   on next(ctx, value) when len(buffer) + 1 >= size : emits Next(ctx, appended(buffer, value))
-//@   on next(ctx, value) when len(buffer) + 1 < size : emits
+//@   on next(ctx, value) when len(buffer) + 1 >= size : emits Next(ctx, appended(buffer, value)) ; post len(buffer') == 0
+//@   on next(ctx, value) when len(buffer) + 1 < size : emits ; post len(buffer') == len(buffer) + 1 && buffer'[len(buffer)] == value
 //@   on complete(ctx) when len(buffer) > 0 : emits Next(ctx, buffer), Complete(ctx)
 //@   on complete(ctx) when len(buffer) <= 0 : emits Complete(ctx)
 
@@ -559,10 +561,11 @@ package ro
 
 //@ operator BufferWhen
 //@   props C05 C16 C04 C08
+//@   note every flush hands the whole buffer over and starts an empty one
 //@   on next@source(ctx, value) : emits ; post len(buffer') == len(buffer) + 1 && buffer'[len(buffer)] == value
-//@   on complete@source(ctx) : emits Next(ctx, buffer), Complete(ctx)
-//@   on next@boundary(ctx, value) : emits Next(ctx, buffer)
-//@   on complete@boundary(ctx) : emits Next(ctx, buffer), Complete(ctx)
+//@   on complete@source(ctx) : emits Next(ctx, buffer), Complete(ctx) ; post len(atevent(destination.NextWithContext, buffer)) == 0
+//@   on next@boundary(ctx, value) : emits Next(ctx, buffer) ; post len(atevent(destination.NextWithContext, buffer)) == 0
+//@   on complete@boundary(ctx) : emits Next(ctx, buffer), Complete(ctx) ; post len(atevent(destination.NextWithContext, buffer)) == 0
 
 //@ operator SampleWhen
 //@   props C05 C16 C09 C04 C08
@@ -843,11 +846,15 @@ package ro
 
 //@ operator Timestamp
 //@   props C04 C09 C08
-//@   on next(ctx, value) : emits Next(ctx, fields(value, _))
+//@   note the time attached to a value is the clock reading at that value minus the reading taken at subscription
+//@   track call.NowNanoMonotonic
+//@   on next(ctx, value) : emits call.NowNanoMonotonic(), Next(ctx, fields(value, res(call.NowNanoMonotonic) - start))
 
 //@ operator TimeInterval
 //@   props C04 C09 C08
-//@   on next(ctx, value) : emits Next(ctx, fields(value, _))
+//@   note the interval attached to a value is the clock reading at that value minus the previous reading (the subscription's for the first value), and that reading becomes the previous one
+//@   track call.NowNanoMonotonic
+//@   on next(ctx, value) : emits call.NowNanoMonotonic(), Next(ctx, fields(value, res(call.NowNanoMonotonic) - previous)) ; post previous' == res(call.NowNanoMonotonic)
 
 //@ operator Average
 //@   props C04 C01 C08
@@ -1231,11 +1238,11 @@ package ro
 //@   note sequential-interleaving semantics; the buffer is the machine state: a value is appended, a full buffer or a tick flushes it whole (also when empty), completion flushes then completes
 //@   requires size >= 1
 //@   alias tick=Interval()
-//@   on next@source(ctx, value) when len(buffer) + 1 >= size : emits Next(ctx, appended(buffer, value))
+//@   on next@source(ctx, value) when len(buffer) + 1 >= size : emits Next(ctx, appended(buffer, value)) ; post called(destination.NextWithContext) ==> len(atevent(destination.NextWithContext, buffer)) == 0
 //@   on next@source(ctx, value) when len(buffer) + 1 < size : emits ; post len(buffer') == len(buffer) + 1 && buffer'[len(buffer)] == value && forall(j, 0, len(buffer), buffer'[j] == buffer[j])
-//@   on complete@source(ctx) : emits Next(ctx, buffer), Complete(ctx)
-//@   on next@tick(ctx, value) : emits Next(ctx, buffer)
-//@   on complete@tick(ctx) : emits Next(ctx, buffer), Complete(ctx)
+//@   on complete@source(ctx) : emits Next(ctx, buffer), Complete(ctx) ; post len(atevent(destination.NextWithContext, buffer)) == 0
+//@   on next@tick(ctx, value) : emits Next(ctx, buffer) ; post len(atevent(destination.NextWithContext, buffer)) == 0
+//@   on complete@tick(ctx) : emits Next(ctx, buffer), Complete(ctx) ; post len(atevent(destination.NextWithContext, buffer)) == 0
 
 //@ func ThrowOnContextCancel$1$1
 //@   note the subscribe function of ThrowOnContextCancel: an already cancelled context fails at once; otherwise a watcher goroutine is started for every kind of context (with or without a deadline), then the source is subscribed
